@@ -60,6 +60,9 @@ HEX_ENTRIES = {
     "contains": lambda t, b, k: b in t,
     "set_key": lambda t, b, k: t.set(b, b"v"),
     "set_value": lambda t, b, k: t.set(k, b),
+    # a non-bytes value with exactly the content that is already stored under the key
+    "set_value_same_content_bytearray": lambda t, b, k: t.set(k, bytearray(t.get(k))),
+    "set_value_same_content_memoryview": lambda t, b, k: t.__setitem__(k, memoryview(t.get(k))),
     "setitem_key": lambda t, b, k: t.__setitem__(b, b"v"),
     "setitem_value": lambda t, b, k: t.__setitem__(k, b),
     "delete": lambda t, b, k: t.delete(b),
@@ -170,6 +173,8 @@ BIN_ENTRIES = {
     "contains": lambda t, b, k: b in t,
     "set_key": lambda t, b, k: t.set(b, b"v"),
     "set_value": lambda t, b, k: t.set(k, b),
+    "set_value_same_content_bytearray": lambda t, b, k: t.set(k, bytearray(t.get(k))),
+    "set_value_same_content_memoryview": lambda t, b, k: t.__setitem__(k, memoryview(t.get(k))),
     "setitem_key": lambda t, b, k: t.__setitem__(b, b"v"),
     "delete": lambda t, b, k: t.delete(b),
     "delitem": lambda t, b, k: t.__delitem__(b),
@@ -358,13 +363,17 @@ def run_static(case, ctx):
         db = {}
         t = HexaryTrie(db, prune=True)
         t.set(b"k", b"v" * 40)
-        before = (t.root_hash, dict(db), dict(t.ref_count))
-        r = cut(lambda: t.at_root(t.root_hash).__enter__(), expect=(Exception,))
-        judge(r, ValidationError, "at_root on a pruning trie")
-        if (t.root_hash, dict(db), dict(t.ref_count)) != before:
-            raise Violation("badarg-changed-state", "refused at_root on a pruning trie changed its state")
-        ctx.count("bad_calls")
-        ctx.evaluated()
+        nz = lambda d: {k: v for k, v in dict(d).items() if v}
+        before = (t.root_hash, dict(db), nz(t.ref_count))
+        # whatever root is asked for - the current one, the blank root, an unknown hash, or
+        # something that is not even a byte string - a pruning trie gives no snapshot
+        for arg in (t.root_hash, HexaryTrie.BLANK_NODE_HASH, b"\x11" * 32, bytearray(32), [1, 2], None, "x"):
+            r = cut(lambda: t.at_root(arg).__enter__(), expect=(Exception,))
+            judge(r, ValidationError, "at_root(%r) on a pruning trie" % (arg,))
+            if (t.root_hash, dict(db), nz(t.ref_count)) != before:
+                raise Violation("badarg-changed-state", "refused at_root on a pruning trie changed its state")
+            ctx.count("bad_calls")
+            ctx.evaluated()
         ctx.shape(("static", "snapshot_pruning"))
     elif what == "nibbles":
         for tail in [(16,), (-1,), ("a",), (3, 99), (None,)]:
